@@ -24,7 +24,7 @@ def decodeOp (v : Val) : Option (ReOp ℚ) := do
   | [.str "reparamdir", t, a] => some (.reparamDir (← decodeTok t) (← decodeRatLists a))
   | _ => none
 
-def encodeStep (s : Step ℚ) : Val :=
+def encodeStep (s : ReStep ℚ) : Val :=
   .list [match s.err with | none => .str "ok" | some e => e.toVal, Val.ofBool s.returnsSelf, encodeObj s.obj]
 
 /-- `c06_history <obj> <reverse mode: code|spec> <swap mode: code|spec> <ops>` → one
@@ -37,7 +37,7 @@ def handle : Handler
       let some smode := msv.toStr? | return bad
       let some ol := opsv.toList? | return bad
       let some ops := ol.mapM decodeOp | return bad
-      return .list ((runHistory (mode == "spec") (smode == "spec") o ops).map encodeStep)
+      return .list ((runReHistory (mode == "spec") (smode == "spec") o ops).map encodeStep)
   | "c06_checkdir", [tv, pv] => some <| Id.run do
       let some t := decodeTok tv | return bad
       let some pd := pv.toNat? | return bad
